@@ -87,3 +87,23 @@ Lemma guarded_slot_euler_when_small (delta : Q) (sv fv gv dtv : R) :
 Proof.
   intros H. rewrite guarded_slot_value. destruct (Rlt_dec (Q2R delta) (Rabs gv)); [lra|reflexivity].
 Qed.
+
+(* ---------- C02: int -> double over the reals ---------- *)
+From GX Require Import Cback.
+
+Lemma Q2R_inject_Z z : Q2R (inject_Z z) = IZR z.
+Proof. unfold Q2R, inject_Z. simpl. lra. Qed.
+
+Theorem R_int_embedding : IntEmbedding ROps IZR.
+Proof.
+  constructor; simpl; intros.
+  - symmetry. apply Q2R_inject_Z.
+  - apply plus_IZR.
+  - apply minus_IZR.
+  - apply mult_IZR.
+  - apply opp_IZR.
+Qed.
+
+(* C's fmod over the reals: a - b * trunc(a / b) *)
+Definition r_trunc (a : R) : R := if Rle_dec 0 a then r_floor a else - r_floor (- a).
+Definition r_cfmod (a b : R) : R := a - b * r_trunc (a / b).
